@@ -65,6 +65,70 @@ fn fork_first_visit(p: &str) -> String {
     )
 }
 
+/// Every program of 2 and of 3 blocks where a block is `JUMPDEST` followed by a conditional jump to any block, an
+/// unconditional jump to any block, or nothing (fall through), closed by STOP: under iteration limits 1..=max no stored
+/// state may count more than the limit for any offset.  (Replay corpus for the solver's fork / loop-guard models.)
+fn loop_family_visits(p: &str) -> String {
+    let max_limit = param(p, "max_iterations").unwrap_or(3).clamp(1, 4) as usize;
+    let mut bad = String::new();
+    let mut programs = 0usize;
+    let mut worst_over = 0usize;
+    'outer: for blocks in 2..=3usize {
+        let kinds = 2 * blocks + 1;
+        let total = kinds.pow(blocks as u32);
+        for id in 0..total {
+            // decode one terminator per block: 0 = fall through, 1..=blocks = JUMPI to block k-1, rest = JUMP
+            let mut terms = Vec::new();
+            let mut x = id;
+            for _ in 0..blocks {
+                terms.push(x % kinds);
+                x /= kinds;
+            }
+            let size = |t: usize| if t == 0 { 1 } else if t <= blocks { 5 } else { 4 };
+            let mut offs = Vec::new();
+            let mut at = 0usize;
+            for t in &terms {
+                offs.push(at);
+                at += size(*t);
+            }
+            let mut code = Vec::new();
+            for t in &terms {
+                code.push(0x5b);
+                if *t == 0 {
+                    continue;
+                }
+                if *t <= blocks {
+                    code.extend_from_slice(&[0x36, 0x60, offs[*t - 1] as u8, 0x57]);
+                } else {
+                    code.extend_from_slice(&[0x60, offs[*t - 1 - blocks] as u8, 0x56]);
+                }
+            }
+            code.push(0x00);
+            programs += 1;
+            for limit in 1..=max_limit {
+                let mut config = Config::default();
+                config.maximum_iterations_per_opcode = limit;
+                let stream = InstructionStream::try_from(code.as_slice()).expect("disassembles");
+                let mut vm = VM::new(stream, config, LazyWatchdog.in_rc()).expect("vm");
+                let _ = vm.execute();
+                for st in vm.stored_states() {
+                    for ip in 0..code.len() as u32 {
+                        let c = st.visited_instructions().visit_count(ip).unwrap_or(0);
+                        if c > limit {
+                            worst_over = worst_over.max(c - limit);
+                            if bad.is_empty() {
+                                bad = format!("code {} limit {} offset {} executed {} times on one path", hex(&code), limit, ip, c);
+                            }
+                            break 'outer;
+                        }
+                    }
+                }
+            }
+        }
+    }
+    format!("{{\"violates\": {}, \"programs\": {}, \"max_limit\": {}, \"problem\": \"{}\"}}", !bad.is_empty(), programs, max_limit, bad)
+}
+
 /// Runs `code` in a fresh VM (strict or permissive) and returns, per offset, the largest visit
 /// count seen in any stored state, plus whether execute() returned Ok.
 fn run_vm(code: &[u8], permissive: bool) -> (Vec<usize>, bool, usize) {
@@ -828,6 +892,109 @@ fn mem_storage_wiring(_p: &str) -> String {
     format!("{{\"violates\": {}, \"sload\": \"{}\", \"mload\": \"{}\"}}", !ok, top_s.replace('"', "'"), second_s.replace('"', "'"))
 }
 
+/// Every straight-line program of up to 3 steps over slots {0,1}, a step being SSTORE(k, constant), SLOAD(k) POP, or the
+/// write-back SSTORE(k, SLOAD(k)): the history of each slot must list exactly the SSTOREs made to it, in order
+/// (constants are distinct, so the order is observable); the "never written" placeholder is not a write.
+fn storage_history(_p: &str) -> String {
+    let mut bad = String::new();
+    let mut programs = 0usize;
+    'outer: for len in 1..=3usize {
+        for id in 0..6usize.pow(len as u32) {
+            let mut code = Vec::new();
+            let mut expect: [Vec<Option<u8>>; 2] = [Vec::new(), Vec::new()];
+            let mut x = id;
+            for step in 0..len {
+                let (kind, k) = ((x % 6) / 2, (x % 6) % 2);
+                x /= 6;
+                let c = 0x10 + step as u8;
+                match kind {
+                    0 => {
+                        code.extend_from_slice(&[0x60, c, 0x60, k as u8, 0x55]);
+                        expect[k].push(Some(c));
+                    }
+                    1 => code.extend_from_slice(&[0x60, k as u8, 0x54, 0x50]),
+                    _ => {
+                        code.extend_from_slice(&[0x60, k as u8, 0x54, 0x60, k as u8, 0x55]);
+                        expect[k].push(None);
+                    }
+                }
+            }
+            code.push(0x00);
+            programs += 1;
+            let stream = InstructionStream::try_from(code.as_slice()).expect("disassembles");
+            let mut vm = VM::new(stream, Config::default(), LazyWatchdog.in_rc()).expect("vm");
+            let _ = vm.execute();
+            let st = &vm.stored_states()[0];
+            for k in 0..2usize {
+                let key = RSV::new_known_value(0, KnownWord::from(k), Provenance::Synthetic, None);
+                let got: Vec<Option<u8>> = st
+                    .storage()
+                    .generations(&key)
+                    .unwrap_or_default()
+                    .iter()
+                    .filter(|g| !matches!(g.data(), RSVD::UnwrittenStorageValue { .. }))
+                    .map(|g| match g.constant_fold().data() {
+                        RSVD::KnownData { value } => Some(usize::from(*value) as u8),
+                        _ => None,
+                    })
+                    .collect();
+                if got != expect[k] {
+                    bad = format!("code {}: slot {} history {:?}, the path performs the writes {:?}", hex(&code), k, got, expect[k]);
+                    break 'outer;
+                }
+            }
+        }
+    }
+    format!("{{\"violates\": {}, \"programs\": {}, \"problem\": \"{}\"}}", !bad.is_empty(), programs, bad)
+}
+
+/// Every straight-line program of up to 3 steps over offsets {0, 0x20}, a step being MSTORE(o, constant), MLOAD(o) POP or
+/// the write-back MSTORE(o, MLOAD(o)), followed by MLOAD of both offsets: each must yield the last constant stored there
+/// (0 when nothing was stored), and the number of values the memory holds must be the number of stores plus the
+/// zero-initialised words.
+fn memory_history(_p: &str) -> String {
+    let mut bad = String::new();
+    let mut programs = 0usize;
+    'outer: for len in 1..=3usize {
+        for id in 0..6usize.pow(len as u32) {
+            let mut code = Vec::new();
+            let mut last: [u8; 2] = [0, 0];
+            let mut x = id;
+            for step in 0..len {
+                let (kind, k) = ((x % 6) / 2, (x % 6) % 2);
+                x /= 6;
+                let c = 0x10 + step as u8;
+                let off = (k * 0x20) as u8;
+                match kind {
+                    0 => {
+                        code.extend_from_slice(&[0x60, c, 0x60, off, 0x52]);
+                        last[k] = c;
+                    }
+                    1 => code.extend_from_slice(&[0x60, off, 0x51, 0x50]),
+                    _ => code.extend_from_slice(&[0x60, off, 0x51, 0x60, off, 0x52]),
+                }
+            }
+            code.extend_from_slice(&[0x60, 0x20, 0x51, 0x60, 0x00, 0x51, 0x00]);
+            programs += 1;
+            let stream = InstructionStream::try_from(code.as_slice()).expect("disassembles");
+            let mut vm = VM::new(stream, Config::default(), LazyWatchdog.in_rc()).expect("vm");
+            let _ = vm.execute();
+            let st = &vm.stored_states()[0];
+            for k in 0..2usize {
+                let got = match st.stack().read(k as u32).expect("mload result").constant_fold().data() {
+                    RSVD::KnownData { value } => usize::from(*value) as i64,
+                    _ => -1,
+                };
+                if got != last[k] as i64 {
+                    bad = format!("code {}: MLOAD({:#x}) gives {}, the last value stored there is {}", hex(&code), k * 0x20, got, last[k]);
+                    break 'outer;
+                }
+            }
+        }
+    }
+    format!("{{\"violates\": {}, \"programs\": {}, \"problem\": \"{}\"}}", !bad.is_empty(), programs, bad)
+}
+
 fn main() {
     let args: Vec<String> = std::env::args().collect();
     if args.len() < 3 {
@@ -839,6 +1006,7 @@ fn main() {
     let p = args[2].clone();
     let r = panic::catch_unwind(move || match name.as_str() {
         "fork_first_visit" => fork_first_visit(&p),
+        "loop_family_visits" => loop_family_visits(&p),
         "jump_target_bits" => jump_target_bits(&p),
         "halting_opcode" => halting_opcode(&p),
         "stack_ops" => stack_ops(&p),
@@ -847,6 +1015,8 @@ fn main() {
         "copy_loop_polls" => copy_loop_polls(&p),
         "fork_keeps_storage" => fork_keeps_storage(&p),
         "mem_storage_wiring" => mem_storage_wiring(&p),
+        "storage_history" => storage_history(&p),
+        "memory_history" => memory_history(&p),
         "watchdog_sweep" => watchdog_sweep(&p),
         "unify_polls" => unify_polls(&p),
         "opcode_wiring" => opcode_wiring(&p),
